@@ -5,6 +5,7 @@
    triples the store hands out, as long as each match comes once. *)
 From RV Require Export Sparql.VariantProofs.
 From RV Require Store.Model Store.SimpleProofs Store.MemProofs.
+From RV Require Auditable.Model Auditable.OverStore Auditable.OverStoreProofs Auditable.OverMemory Auditable.OverMemoryProofs.
 Local Open Scope N_scope.
 
 Definition enum := graph -> option term -> option term -> option term -> list triple.
@@ -355,3 +356,109 @@ Lemma enum_aggregate (gs : list graph) s p o :
 Proof.
   induction gs as [|g r IH]; cbn [flat_map concat]; [reflexivity|]. rewrite IH. unfold g_triples. now rewrite filter_app.
 Qed.
+
+(* ---- (a) the auditable wrapper over the Memory model ----
+   Auditable/OverStore.v: the wrapper reads and writes the wrapped store through the store's
+   own add / remove / triples; [x_run] lists the wrapped store after every operation of a
+   history (adds, removes, commits, rollbacks of both wrappers), [a_run] the quads the
+   list-level model of the wrapper prescribes.  Every such state enumerates, context by
+   context and pattern by pattern, exactly the triples the prescription holds for that
+   context, each once: the hypothesis [enum_ok] of the store-independence theorem. *)
+Definition ctx_graph (S : Base.Quads.qset) (k : Base.Quads.cid) : graph :=
+  map fst (filter (fun q : Base.Quads.quad => N.eqb (snd q) k) S).
+
+Lemma ctx_graph_in S k t : In t (ctx_graph S k) <-> In (t, k) S.
+Proof.
+  unfold ctx_graph. rewrite in_map_iff. split.
+  - intros [[t' k'] [E I]]. cbn in E. subst t'. apply filter_In in I as [I Ek]. cbn in Ek.
+    apply N.eqb_eq in Ek. now subst.
+  - intros I. exists (t, k). split; [reflexivity|]. apply filter_In. split; [exact I|apply N.eqb_refl].
+Qed.
+
+Lemma ctx_graph_nodup S k : NoDup S -> NoDup (ctx_graph S k).
+Proof.
+  unfold ctx_graph. induction S as [|[t c] r IH]; intros N; cbn; [constructor|].
+  inversion N as [|? ? Hn Nr]; subst. destruct (N.eqb c k) eqn:E; cbn; [|now apply IH].
+  constructor; [|now apply IH]. intros I. apply in_map_iff in I as [[t' c'] [Et I]]. cbn in Et. subst t'.
+  apply filter_In in I as [I Ec]. cbn in Ec. apply N.eqb_eq in E. apply N.eqb_eq in Ec. subst. contradiction.
+Qed.
+
+Lemma sim_run_mem : forall ops x s,
+  Auditable.OverStoreProofs.Sim Store.Model.mem Store.Model.mem_holds Store.MemProofs.MemInv x s ->
+  Forall2 (fun m' S' => Store.MemProofs.MemInv m'
+                        /\ Auditable.OverStoreProofs.Abs Store.Model.mem Store.Model.mem_holds m' S' /\ NoDup S')
+          (Auditable.OverStore.x_run Store.Model.mem Store.Model.mem_add Store.Model.mem_remove Store.Model.mem_triples x ops)
+          (Auditable.Model.a_run s (map Auditable.OverStore.to_aop ops)).
+Proof.
+  induction ops as [|o r IH]; intros x s H; cbn; [constructor|].
+  pose proof (Auditable.OverStoreProofs.sim_step Store.Model.mem Store.Model.mem_add Store.Model.mem_remove
+                Store.Model.mem_triples Store.Model.mem_holds Store.MemProofs.MemInv
+                Store.MemProofs.mem_add_ok Store.MemProofs.mem_remove_ok Store.MemProofs.mem_triples_exact x s o H) as H'.
+  constructor; [|now apply IH]. destruct H' as [I [A [N _]]]. auto.
+Qed.
+
+Theorem enum_auditable ops m S :
+  Store.MemProofs.MemInv m -> (forall c t, Store.Model.mem_holds m c t = Base.Quads.q_mem (t, c) S) -> NoDup S ->
+  Forall2 (fun m' S' => forall k s p o,
+             Permutation (Store.Model.mem_triples m' k (s, p, o)) (g_triples (ctx_graph S' k) s p o))
+          (Auditable.OverStore.x_run Store.Model.mem Store.Model.mem_add Store.Model.mem_remove Store.Model.mem_triples
+             (Auditable.OverStore.x_init m) ops)
+          (Auditable.Model.a_run (Auditable.Model.a_init S) (map Auditable.OverStore.to_aop ops)).
+Proof.
+  intros I A N.
+  assert (H := sim_run_mem ops _ _ (Auditable.OverStoreProofs.Sim_init Store.Model.mem Store.Model.mem_holds
+                                      Store.MemProofs.MemInv m S I A N)).
+  induction H as [|m' S' l l' [I' [A' N']] _ IH]; constructor; [|exact IH].
+  intros k s p o. apply enum_memory; [exact I'|now apply ctx_graph_nodup|].
+  intros t. rewrite ctx_graph_in, (A' k t). apply Base.Quads.q_mem_In.
+Qed.
+
+(* ---- (b) a dataset held as the contexts of ONE Memory store ----
+   [k0] the context of the default graph, [names] the graph names with their contexts; the
+   dataset the model evaluates on is what the store enumerates for the open pattern; the
+   enumeration function of the whole dataset looks a graph up among those contexts (two
+   contexts that hold the same set are interchangeable). *)
+Definition store_graph (m : Store.Model.mem) (k : Base.Quads.cid) : graph :=
+  Store.Model.mem_triples m k Store.Model.all_pat.
+Definition store_dataset (m : Store.Model.mem) (k0 : Base.Quads.cid) (names : list (term * Base.Quads.cid)) : dataset :=
+  {| ds_default := store_graph m k0;
+     ds_named := map (fun nk => (fst nk, store_graph m (snd nk))) names |}.
+Definition ctx_of (m : Store.Model.mem) (ks : list Base.Quads.cid) (g : graph) : Base.Quads.cid :=
+  match find (fun k => graph_eqb (store_graph m k) g) ks with Some k => k | None => 0 end.
+Definition En_store (m : Store.Model.mem) (k0 : Base.Quads.cid) (names : list (term * Base.Quads.cid)) : enum :=
+  fun g s p o => Store.Model.mem_triples m (ctx_of m (k0 :: map snd names) g) (s, p, o).
+
+Lemma graph_eqb_refl g : graph_eqb g g = true.
+Proof. unfold graph_eqb. apply leqb_refl. intros x _. now apply triple_eqb_eq. Qed.
+
+Lemma store_graph_enum m k : Store.MemProofs.MemInv m ->
+  forall s p o, Permutation (Store.Model.mem_triples m k (s, p, o)) (g_triples (store_graph m k) s p o).
+Proof.
+  intros I. destruct (Store.MemProofs.mem_triples_exact m k Store.Model.all_pat I) as [N H].
+  apply enum_memory; [exact I|exact N|].
+  intros t. unfold store_graph. rewrite H. split; [intros E; split; [|exact E]|tauto].
+  destruct t as [[a b] d]. reflexivity.
+Qed.
+
+Theorem enum_dataset m k0 names c : Store.MemProofs.MemInv m ->
+  c_ds c = store_dataset m k0 names -> enum_ok (En_store m k0 names) c.
+Proof.
+  intros I E g Cg s p o. unfold En_store, ctx_of.
+  assert (Ex : exists k, In k (k0 :: map snd names) /\ store_graph m k = g).
+  { destruct Cg as [->|Ig]; rewrite E in *; cbn in *.
+    - exists k0. split; [now left|reflexivity].
+    - rewrite map_map in Ig. apply in_map_iff in Ig as [[n k] [Eg In_]]. cbn in Eg.
+      exists k. split; [right; apply in_map_iff; exists (n, k); auto|exact Eg]. }
+  destruct Ex as [k [Ik Ek]].
+  destruct (find _ (k0 :: map snd names)) as [k'|] eqn:F.
+  - apply find_some in F as [_ Eq]. apply graph_eqb_eq in Eq. rewrite <- Eq. now apply store_graph_enum.
+  - exfalso. pose proof (find_none _ _ F k Ik) as C. cbn beta in C. rewrite Ek, graph_eqb_refl in C. discriminate.
+Qed.
+
+(* the closed statement: any query without OFFSET over the dataset read off ONE Memory store -
+   GRAPH patterns included - answered through the store's own per-context enumerations, is
+   answered as the model answers it *)
+Theorem store_dataset_model m k0 names c : Store.MemProofs.MemInv m ->
+  c_ds c = store_dataset m k0 names -> no_slice (c_alg c) = true ->
+  obs_eqb (model_obs_en (En_store m k0 names) c) (model_obs c) = true.
+Proof. intros I E N. apply store_model; [now apply enum_dataset|exact N]. Qed.
